@@ -376,34 +376,38 @@ func compVariants(c *LComp) []*LComp {
 	out := []*LComp{nil}
 	cp := func() *LComp {
 		n := *c
-		n.SocEls = append([]LSocEl(nil), c.SocEls...)
-		n.Links = append([]bool(nil), c.Links...)
-		n.AccEls = append([]LAccEl(nil), c.AccEls...)
+		n.SocKids = append([]LSocKid(nil), c.SocKids...)
+		n.NavKids = append([]LNavKid(nil), c.NavKids...)
+		n.AccKids = nil
+		for _, k := range c.AccKids {
+			k.Parts = append([]LAccPart(nil), k.Parts...)
+			n.AccKids = append(n.AccKids, k)
+		}
 		n.Imgs = append([]bool(nil), c.Imgs...)
 		return &n
 	}
-	for i := range c.SocEls {
+	for i := range c.SocKids {
 		n := cp()
-		n.SocEls = append(n.SocEls[:i:i], n.SocEls[i+1:]...)
+		n.SocKids = append(n.SocKids[:i:i], n.SocKids[i+1:]...)
 		out = append(out, n)
-		if c.SocEls[i].Href || c.SocEls[i].Text {
+		if c.SocKids[i].Href || c.SocKids[i].Text {
 			m := cp()
-			m.SocEls[i].Href, m.SocEls[i].Text = false, false
+			m.SocKids[i].Href, m.SocKids[i].Text = false, false
 			out = append(out, m)
 		}
 	}
-	for i := range c.Links {
+	for i := range c.NavKids {
 		n := cp()
-		n.Links = append(n.Links[:i:i], n.Links[i+1:]...)
+		n.NavKids = append(n.NavKids[:i:i], n.NavKids[i+1:]...)
 		out = append(out, n)
 	}
-	for i := range c.AccEls {
+	for i := range c.AccKids {
 		n := cp()
-		n.AccEls = append(n.AccEls[:i:i], n.AccEls[i+1:]...)
+		n.AccKids = append(n.AccKids[:i:i], n.AccKids[i+1:]...)
 		out = append(out, n)
-		if c.AccEls[i].Title >= 0 || c.AccEls[i].Text >= 0 {
+		for j := range c.AccKids[i].Parts {
 			m := cp()
-			m.AccEls[i] = LAccEl{Title: -1, Text: -1}
+			m.AccKids[i].Parts = append(m.AccKids[i].Parts[:j:j], m.AccKids[i].Parts[j+1:]...)
 			out = append(out, m)
 		}
 	}
@@ -434,18 +438,21 @@ func docSize(d *LDoc) int {
 	leaf := func(l LLeaf) int {
 		n := 10 + b2(l.Align != "") + b2(l.Raw && !l.Blank)
 		if c := l.Comp; c != nil {
-			n += 5 + b2(c.Href) + b2(c.Content) + c.Rows + b2(c.Vert) + b2(c.Hamb) + b2(c.Thumbs) + 3*(len(c.SocEls)+len(c.Links)+len(c.AccEls)+len(c.Imgs))
-			for _, e := range c.SocEls {
-				n += b2(e.Icon) + b2(e.Href) + b2(e.Text)
+			n += 5 + b2(c.Href) + b2(c.Content) + c.Rows + b2(c.Vert) + b2(c.Hamb) + b2(c.Thumbs) + 3*(len(c.SocKids)+len(c.NavKids)+len(c.AccKids)+len(c.Imgs))
+			for _, e := range c.SocKids {
+				n += b2(e.Href) + b2(e.Text) + b2(e.Raw && !e.Blank)
 			}
-			for _, e := range c.AccEls {
-				n += e.Title + e.Text + 2 + b2(e.IconLeft)
+			for _, e := range c.AccKids {
+				n += 3*len(e.Parts) + b2(e.IconLeft) + b2(e.Raw && !e.Blank)
+				for _, p := range e.Parts {
+					n += b2(p.Content)
+				}
 			}
 			for _, h := range c.Imgs {
 				n += b2(h)
 			}
-			for _, h := range c.Links {
-				n += b2(h)
+			for _, h := range c.NavKids {
+				n += b2(h.Content) + b2(h.Raw && !h.Blank)
 			}
 		}
 		return n
@@ -642,51 +649,44 @@ func componentAlphabet() []*LComp {
 		cs = append(cs, &LComp{Kind: "image", Href: c}, &LComp{Kind: "table", Content: c})
 	}
 	cs = append(cs, &LComp{Kind: "divider"}, &LComp{Kind: "spacer"}, &LComp{Kind: "table", Rows: 1}, &LComp{Kind: "table", Rows: 2}, &LComp{Kind: "table", Rows: 3})
-	var socAll []LSocEl
-	for _, i := range bools {
-		for _, h := range bools {
-			for _, t := range bools {
-				socAll = append(socAll, LSocEl{i, h, t})
-			}
-		}
-	}
-	socFew := []LSocEl{{false, true, true}, {true, false, false}, {true, true, true}, {true, false, true}}
+	el := func(h, t bool) LSocKid { return LSocKid{Href: h, Text: t} }
+	socOne := []LSocKid{el(false, false), el(false, true), el(true, false), el(true, true), {Raw: true}, {Raw: true, Blank: true}}
 	for _, v := range bools {
 		cs = append(cs, &LComp{Kind: "social", Vert: v})
-		for _, e := range socAll {
-			cs = append(cs, &LComp{Kind: "social", Vert: v, SocEls: []LSocEl{e}})
-		}
-		for _, e1 := range socFew {
-			for _, e2 := range socFew {
-				cs = append(cs, &LComp{Kind: "social", Vert: v, SocEls: []LSocEl{e1, e2}})
+		for _, e1 := range socOne {
+			cs = append(cs, &LComp{Kind: "social", Vert: v, SocKids: []LSocKid{e1}})
+			for _, e2 := range socOne {
+				cs = append(cs, &LComp{Kind: "social", Vert: v, SocKids: []LSocKid{e1, e2}})
 			}
 		}
-		cs = append(cs, &LComp{Kind: "social", Vert: v, SocEls: []LSocEl{socFew[2], socFew[0], socFew[3]}}, &LComp{Kind: "social", Vert: v, SocEls: []LSocEl{socFew[0], socFew[2], socFew[0]}})
+		cs = append(cs, &LComp{Kind: "social", Vert: v, SocKids: []LSocKid{el(true, true), {Raw: true}, el(false, true), {Raw: true}, el(true, false)}},
+			&LComp{Kind: "social", Vert: v, SocKids: []LSocKid{{Raw: true}, el(true, true), el(false, false), el(false, true), {Raw: true, Blank: true}}})
 	}
+	navOne := []LNavKid{{Content: true}, {Content: false}, {Raw: true}, {Raw: true, Blank: true}}
 	for _, hb := range bools {
-		for _, ls := range [][]bool{nil, {true}, {false}, {true, true}, {true, false}, {false, true}, {true, true, true}, {false, false, true, true}} {
-			cs = append(cs, &LComp{Kind: "navbar", Hamb: hb, Links: ls})
-		}
-	}
-	var accAll []LAccEl
-	for ti := -1; ti <= 1; ti++ {
-		for tx := -1; tx <= 1; tx++ {
-			for _, il := range bools {
-				accAll = append(accAll, LAccEl{ti, tx, il})
+		cs = append(cs, &LComp{Kind: "navbar", Hamb: hb})
+		for _, k1 := range navOne {
+			cs = append(cs, &LComp{Kind: "navbar", Hamb: hb, NavKids: []LNavKid{k1}})
+			for _, k2 := range navOne {
+				cs = append(cs, &LComp{Kind: "navbar", Hamb: hb, NavKids: []LNavKid{k1, k2}})
+				for _, k3 := range navOne[:3] {
+					cs = append(cs, &LComp{Kind: "navbar", Hamb: hb, NavKids: []LNavKid{k1, k2, k3}})
+				}
 			}
 		}
 	}
-	cs = append(cs, &LComp{Kind: "accordion"})
-	for _, e := range accAll {
-		cs = append(cs, &LComp{Kind: "accordion", AccEls: []LAccEl{e}})
-	}
-	accFew := []LAccEl{{1, 1, false}, {-1, -1, false}, {1, -1, true}, {-1, 1, false}}
-	for _, e1 := range accFew {
-		for _, e2 := range accFew {
-			cs = append(cs, &LComp{Kind: "accordion", AccEls: []LAccEl{e1, e2}})
+	parts := []LAccPart{{"title", true}, {"title", false}, {"text", true}, {"text", false}, {"raw", true}, {"raw", false}}
+	cs = append(cs, &LComp{Kind: "accordion"}, &LComp{Kind: "accordion", AccKids: []LAccKid{{Raw: true}}}, &LComp{Kind: "accordion", AccKids: []LAccKid{{Raw: true, Blank: true}, {}}})
+	for _, il := range bools {
+		cs = append(cs, &LComp{Kind: "accordion", AccKids: []LAccKid{{IconLeft: il}}})
+		for _, p1 := range parts {
+			cs = append(cs, &LComp{Kind: "accordion", AccKids: []LAccKid{{IconLeft: il, Parts: []LAccPart{p1}}}})
+			for _, p2 := range parts {
+				cs = append(cs, &LComp{Kind: "accordion", AccKids: []LAccKid{{IconLeft: il, Parts: []LAccPart{p1, p2}}}})
+			}
 		}
 	}
-	cs = append(cs, &LComp{Kind: "accordion", AccEls: []LAccEl{accFew[0], accFew[1], accFew[2]}})
+	cs = append(cs, &LComp{Kind: "accordion", AccKids: []LAccKid{{Parts: []LAccPart{parts[0], parts[2]}}, {Raw: true}, {IconLeft: true, Parts: []LAccPart{parts[2], parts[0], parts[0], parts[4]}}, {}}})
 	for _, th := range bools {
 		for _, im := range [][]bool{{false}, {true}, {false, false}, {true, false}, {false, true}, {true, true, false}, {false, false, false, true}} {
 			cs = append(cs, &LComp{Kind: "carousel", Thumbs: th, Imgs: im})
